@@ -136,12 +136,9 @@ def build(prop, need_driver=True, clean=False):
                                 res.failed_theorems.append(m.group(1))
                             break
                         i -= 1
-            props_built = os.path.exists(os.path.join(LEAN, '.lake', 'build', 'lib', 'lean', 'Plotink', 'Props',
-                                                      f'{prop}.olean')) and \
-                not any(f.endswith(f'Props/{prop}.lean') for f in res.failed_modules) and \
-                not re.search(r'error: .*Plotink\.Props\.' + prop, out)
-            if not res.failed_theorems and not props_built:
-                # an imported module failed: every theorem of the property is unchecked
+            if not res.failed_theorems:
+                # the failure is in an imported module (or not attributable): lake did not rebuild the Props
+                # module, so none of the property's theorems has been checked against the current sources
                 res.failed_theorems = list(res.theorems)
         # driver binary (may exist even if the Props build failed)
         drv = os.path.join(LEAN, '.lake', 'build', 'bin', 'driver')
